@@ -291,6 +291,33 @@ fn random_case(seed: u64, i: u64) -> Case {
     Case { k: "rnd", w, h, ice, cells, sauce: i % 5 == 0, ml: (w as i64) * (w as i64) * (h as i64) <= 120_000 }
 }
 
+/// Rows that reach the 64-cell cap of a run: a run of `len` cells of each run type, followed by EVERY suffix of `s` cells over
+/// 3 characters x 3 attributes (the run's own character / attribute and two others).  One buffer per 30 rows (the height bound of the property).
+fn cap_cases(ice: bool) -> Vec<Case> {
+    let chars = [65u32, 66, 219];
+    let attrs = [(7u32, 0u32), (1, 2), (7, 4)];
+    let sym = |ci: usize, ai: usize| pack(chars[ci], attrs[ai].0, attrs[ai].1, 0, 0);
+    let mut res = vec![];
+    for ty in 0..4 {
+        for &len in &[63usize, 64, 65, 127, 128, 129] {
+            for s in 0..=(if len < 100 { 3usize } else { 2 }) {
+                let w = len + s;
+                let mut rows: Vec<Vec<u32>> = vec![];
+                for code in 0..9usize.pow(s as u32) {
+                    let mut row: Vec<u32> = (0..len).map(|i| match ty { 0 => sym(0, 0), 1 => sym(0, i % 2), 2 => sym(i % 2, 0), _ => sym(i % 2, i % 2) }).collect();
+                    let mut c = code;
+                    for _ in 0..s { row.push(sym(c % 3, (c / 3) % 3)); c /= 9; }
+                    rows.push(row);
+                }
+                for chunk in rows.chunks(30) {
+                    res.push(Case { k: "rnd", w: w as i32, h: chunk.len() as i32, ice, cells: chunk.concat(), sauce: false, ml: false });
+                }
+            }
+        }
+    }
+    res
+}
+
 /// `--case <replay.json>`: rebuild the buffer of one recorded event and run it again
 fn replay_case(path: &str) -> Case {
     let text = std::fs::read_to_string(path).unwrap_or_else(|e| { eprintln!("c06: cannot read {path}: {e}"); std::process::exit(2) });
@@ -358,6 +385,11 @@ pub fn c06(a: &Args) {
     for i in 0..n_rnd {
         sink.emit(&random_case(seed, i));
     }
+    let caps = cap_cases(seed % 2 == 1);
+    for cs in &caps {
+        sink.emit(cs);
+    }
+    let n_rnd = n_rnd + caps.len() as u64;
     for o in sink.outs.iter_mut() { o.flush(); }
     let summary = json!({"classes":classes,"buffers":sink.id,"exhaustive_buffers":exh_buffers,"random_buffers":n_rnd,"rows":sink.rows,
                          "params":{"full3":full3,"canon3":canon3,"stride6":stride6,"stride7":stride7,"full2":full2,"rows_per_buffer":maxh}});
